@@ -45,7 +45,8 @@ def main():
         return runner.replay(spec["arms"], args.prop, args.replay, spec.get("armed") or {args.prop})
     return runner.run_check(args.prop, spec["arms"], spec["level"], args.tier, seed, args.workers, spec["rule"],
                             spec["assumptions"], spec["real_stub"], armed=spec.get("armed"),
-                            runs_override=args.runs, extra_coverage=spec.get("extra_coverage"))
+                            runs_override=args.runs, extra_coverage=spec.get("extra_coverage"),
+                            expected_probes=spec.get("expected_probes", ()))
 
 
 if __name__ == "__main__":
